@@ -279,8 +279,8 @@ type GenOpt struct {
 	AllowKnown bool
 }
 
-var mainTypes = []string{"Ints", "Scalars", "Nulls", "Sers", "Embs", "Defs", "Comp", "Keyed", "StrKey", "UnixU", "Twice", "Loc", "Loc"}
-var mapTypes = []string{"Ints", "Scalars", "Keyed", "Comp", "Embs", "Twice", "Loc"}
+var mainTypes = []string{"Ints", "Scalars", "Nulls", "Sers", "Embs", "Defs", "Comp", "Keyed", "StrKey", "UnixU", "Twice", "Loc", "Loc", "Uid", "PTimes", "PTimes"}
+var mapTypes = []string{"Ints", "Scalars", "Keyed", "Comp", "Embs", "Twice", "Loc", "Uid"}
 
 func genInput(r *lib.Rng, id int, g GenOpt) Input {
 	if isGen(g.Type) {
@@ -351,10 +351,10 @@ func genInput(r *lib.Rng, id int, g GenOpt) Input {
 				if isMap && rec[j].Z == "0" {
 					rec[j] = vAbsent
 				}
-			case f.PK && pk == nil && (f.Kind.K == "int" || f.Kind.K == "uint") && hasStrKey(d):
+			case f.HPK && pk == nil && (f.Kind.K == "int" || f.Kind.K == "uint") && hasStrKey(d):
 				// member of a composite key: few values, so that rows share it
 				rec[j] = vInt(int64(1 + r.Intn(2)))
-			case f.PK && f.Kind.K == "str":
+			case f.HPK && f.Kind.K == "str":
 				rec[j] = vStr(fmt.Sprintf("k%d-%d%s", id, i, lib.Pick(r, []string{"", "'", "é"})))
 			case f.EmbPtr && embNil:
 				rec[j] = vAbsent
@@ -371,7 +371,7 @@ func genInput(r *lib.Rng, id int, g GenOpt) Input {
 					rec[j] = nonZero(r, f)
 				}
 			default:
-				over := i == overAt && f.Kind.K == "uint" && f.Kind.W == 64 && !f.PK
+				over := i == overAt && f.Kind.K == "uint" && f.Kind.W == 64 && !f.HPK
 				rec[j] = genVal(r, f, f.Kind, f.goType, over)
 				if isMap && f.Kind.K == "ser" {
 					rec[j] = vAbsent
@@ -420,7 +420,7 @@ func nonZero(r *lib.Rng, f *FDesc) Val {
 
 func hasStrKey(d *Desc) bool {
 	for _, f := range d.Fields {
-		if f.PK && f.Kind.K == "str" {
+		if f.HPK && f.Kind.K == "str" {
 			return true
 		}
 	}
